@@ -17,6 +17,7 @@ const NAMES: [&str; 6] = ["X1", "X2", "X3", "Y1", "Y2", "Y3"];
 struct Ctx {
     sess: Session,
     rows: HashMap<String, Row>,
+    rows2: HashMap<String, Row>, // the same values in another column layout (a projection in reverse order)
     current: String,
 }
 
@@ -33,7 +34,7 @@ fn setup() -> Ctx {
     }
     cols.push(Column::build("M").nullable().int32());
     p.create_table("E", cols).expect("create table E");
-    Ctx { sess, rows: HashMap::new(), current: String::new() }
+    Ctx { sess, rows: HashMap::new(), rows2: HashMap::new(), current: String::new() }
 }
 
 fn put_row(ctx: &mut Ctx, key: &str, vals: &[Value]) -> Result<(), String> {
@@ -76,6 +77,13 @@ fn run_case(ctx: &mut Ctx, c: &J, dml: bool) -> Option<(&'static str, String)> {
             }
             None => return Some(("harness", "row not found".into())),
         }
+        let row2 = match p.select_rows(Select::table("E").columns(&["M", "Y3", "Y2", "Y1", "X3", "X2", "X1"])) {
+            Ok(mut r) => r.next(),
+            Err(e) => return Some(("harness", format!("projection failed: {}", e))),
+        };
+        if let Some(r) = row2 {
+            ctx.rows2.insert(key.clone(), r);
+        }
     }
     // 1. construction (literal operands are folded while the expression is built)
     let built = catch_unwind(AssertUnwindSafe(|| j::to_expr(&c["e"])));
@@ -91,6 +99,20 @@ fn run_case(ctx: &mut Ctx, c: &J, dml: bool) -> Option<(&'static str, String)> {
     };
     if !want.contains(&got) {
         return Some(("expr-value", format!("Expr::eval gave {} but the specification admits {}", val(&got), c["want"])));
+    }
+    // 2b. the value depends on the row's names and values only: the SAME expression object evaluated on a row
+    //     with another column layout (and then on the first row again) gives an admitted result each time
+    if let Some(row2) = ctx.rows2.get(&key).cloned() {
+        for (which, r) in [("a row with the columns in another order", &row2), ("the first row again", &row)] {
+            match catch_unwind(AssertUnwindSafe(|| expr.eval(r))) {
+                Ok(v) => {
+                    if !want.contains(&v) {
+                        return Some(("expr-value", format!("the same expression object evaluated on {} gave {} but the specification admits {}", which, val(&v), c["want"])));
+                    }
+                }
+                Err(_) => return Some(("expr-panic", format!("Expr::eval on {} panicked", which))),
+            }
+        }
     }
     if !dml {
         return None;
